@@ -67,8 +67,8 @@ def cases(tier, seed):
             continue
         for kern in KERNELS:
             for pad in PADS:
-                if pad.startswith("preset") and q and (shape != (2, 2, 2) or kern not in ((3, 3, 3), (5, 3, 1))):
-                    continue  # the presets pad by 10/20 cells per face: heavy, so only 2x2x2 in the quick tier
+                if pad.startswith("preset") and (n > 9 or (q and (shape != (2, 2, 2) or kern not in ((3, 3, 3), (5, 3, 1))))):
+                    continue  # the presets pad by 10/20 cells per face (42^3 cells per volume): <= 9-cell shapes, 2x2x2 only in the quick tier
                 for rep in (1, 2):
                     if rep == 2 and q and (pad not in ("edge", "mixed") or kern not in ((3, 3, 3), (3, 3, 1))):
                         continue
@@ -100,7 +100,7 @@ def cases(tier, seed):
 def bounds(tier, seed):
     return {
         "median_shapes_all_binary": (S_SMALL if tier == "thorough" else [x for x in S_SMALL if x not in ((3, 1, 3), (2, 3, 2))]) + S_BIG,
-        "median_combinations": "thorough: full kernel x padding product (presets on the <= 12-cell shapes), repeats 1,2; quick: full product on the <= 12-cell shapes without presets (presets on 2x2x2), repeats=2 on edge/mixed with two kernels, 7 (kernel, padding) combinations on the 16/18-cell shapes",
+        "median_combinations": "thorough: full kernel x padding product (presets on the <= 9-cell shapes), repeats 1,2; quick: full product on the <= 12-cell shapes without presets (presets on 2x2x2), repeats=2 on edge/mixed with two kernels, 7 (kernel, padding) combinations on the 16/18-cell shapes",
         "kernels": KERNELS,
         "paddings": list(PADS),
         "repeats": [1, 2],
